@@ -7,6 +7,32 @@ BASE_NOTE = ("Trusted: Coq 8.16.1 kernel (no native_compute; vm_compute only in 
              "(Print Assumptions parsed every run; theorems at R would add the 3 stdlib real axioms); ExtrOcamlBasic extraction with Z/Q/Qc kept as datatypes + a Zarith I/O driver; "
              "the Python correspondence harness and its tolerances; JAX/NumPy primitives are modelled by contracts (rfftn/irfftn = DFT half-spectrum, scan = fold, exp). ")
 CLAIMED = {
+ "C06": dict(text="PARTIAL. Theorems (every state type, every stepper function / parameterised family, every n, every batch), under the stated contracts of the JAX transformations (vmap f = map f, "
+                  "jit f = f, scan = fold, swapaxes = transpose): batch independence, replacing one member changes only that member, vmap(rollout f n) = transpose(rollout (vmap f) n), the same for "
+                  "repeat and for families of steppers with per-member states. About the code: a table of EVERY Python-level test reachable from every exported stepper class "
+                  "(Gen/Branches.v, regenerated on each run by a fail-closed call-graph translator: 36 classes, ~700 entries) is proved to contain no value-dependent test on any call path and only "
+                  "isinstance-guarded ones on constructor paths.",
+             note="Not provable in a model: that jax.jit / vmap / filter_vmap / scan meet those contracts on the exponax steppers (tracer leaks, concretisation inside library calls, XLA fusion changing "
+                  "rounding). Decided on the real code: every exported class x {eager, filter_jit} x {single, vmap, filter_vmap over every float / float-tuple / array constructor argument} x rollout / "
+                  "repeat nesting orders, to 1e-11 (this sweep found the FMA dealiasing-mask defect repaired in 462054c).",
+             technique="Rocq proof (list induction on combinators; decision procedure over an AST-generated branch table) + exact combinator correspondence + jit/vmap sweep on the real code", design="§4 C06"),
+ "C07": dict(text="PARTIAL. Theorems over any field of characteristic 0 with the model evaluated on dual numbers (forward-mode AD): sum / product / quotient / power rules and soundness for every polynomial "
+                  "expression; chain rule through compositions and n-fold iterates (repeat / rollout entries); linear steppers (and the wave step): the Jacobian is the map itself after any n steps, "
+                  "central differences are exact, derivative w.r.t. dt and the symbol; prod2 / prod3 are bi- / trilinear with the product rule, central differences of quadratic maps are exact and "
+                  "of cubic maps off by exactly h^2 T(v,v,v); diagonal multipliers are self-adjoint and adjoints compose in reverse; state derivative of ETD1/ETD2RK/ETD3RK/ETD4RK stage by stage "
+                  "(instance: Burgers step). The extracted dual-number model is compared with jax.jvp of the real symbols and nonlinear functions at every stored mode.",
+             note="Not proved: JAX's AD rules themselves, reverse mode through lax.scan, NaN-safety of guarded divisions, derivatives w.r.t. dt / coefficients through the contour-integral phi "
+                  "functions. Decided on the real code for every exported class: jvp vs central-difference ladder with h^2 convergence, vjp/jvp dot test, finiteness at zero / constant / harmonic "
+                  "states and vanishing symbols, every float coefficient entry and dt (reverse vs forward), through rollout / repeat / RepeatedStepper.",
+             technique="Rocq proof (dual-number algebra, structural induction, multilinearity) + extracted dual-number model vs jax.jvp + finite-difference / dot-test oracle", design="§4 C07"),
+ "C18": dict(text="Theorems (any field; order laws and sqrt / power only as premises): normalize_ic gives exactly zero mean, unit (population) std, unit max|.| on non-constant fields; clamping reaches both "
+                  "limits; scaling; the truncated Fourier series has mean = offset for every D and N (D-dimensional inverse DFT from a primitive root; the repaired DC := offset defect gives offset/N^D), "
+                  "content confined to the cutoff; Gaussian-random-field amplitude law; channel / spatial shapes of all generators and wrappers incl. the Discontinuity mask (the old mask gives D "
+                  "channels); function form = sampled form; option validation and call guards characterised (iff). Gen/ICGen.v and the guards are re-translated from exponax/ic on every run and "
+                  "proved equal to the hand model (Tie/ICTie.v).",
+             note="The PRNG (determinism, key splitting) and finiteness are checked on the real code only; sqrt and real powers are symbolic. KNOWN FINDING (not repaired, listed in known_findings.json): "
+                  "RandomDiscontinuities with max_one / std_one or clamping returns NaN for draws whose boxes contain no grid point (constant field, outside the premise of the normalisation theorems).",
+             technique="Rocq proof (field identities, D-dimensional DFT orthogonality, iff characterisation of guards) on an AST-translated model + exact-rational correspondence + contract sweep on the real code", design="§4 C18"),
  "C08": dict(text="Theorems: the shift theorem (any field with a primitive root); the pseudo-spectral products (quadratic and cubic, any D, N, band) commute with every character twist "
                   "(chi(m) chi(wrap(k-m)) = chi(k)), hence so do the nonlinear terms (proved for both single-channel convection forms and the gradient norm; the other terms are the same combinators); "
                   "every ETDRK order 0-4 (stage programs translated from the source) commutes with any mode-wise multiplier the nonlinear term commutes with - for ALL states; the generic symbol is "
@@ -46,8 +72,8 @@ CLAIMED = {
  "C09": dict(text="Theorems (any field, any D, any state): the mean is the zero mode of the transform; every conservation-form linear symbol vanishes at the mean mode; the mean-mode coefficient of "
                   "conservative convection (multi- and single-channel), mean-fixed gradient norm and Cahn-Hilliard vanishes for every input; hence every ETDRK order 0-4 (stage programs translated "
                   "from the source) leaves the mean unchanged; every constant equilibrium (lambda u + N(u) = 0) is a fixed point of ETD1/ETD2RK/ETD3RK/ETD4RK for every h.",
-             note="PARTIAL: energy/enstrophy neutrality of the convective terms, the zero mean of the non-conservative single-channel, 2D vorticity and 3D rotational (divergence-free states) forms are "
-                  "not proved (they need the k -> -k antisymmetry / integration by parts over the band); they are decided on the real code by the witness oracle for all listed steppers x orders 1-4 x D x N parity.",
+             note="PARTIAL: the zero mean of the NON-conservative single-channel convection is proved (antisymmetry of the dealiased convolution sum under m -> -m, any D, 2K < N); energy/enstrophy "
+                  "neutrality of the convective terms and the zero mean of the 2D vorticity and 3D rotational (divergence-free states) forms are not proved; they are decided on the real code by the witness oracle for all listed steppers x orders 1-4 x D x N parity.",
              technique="Rocq proof (stage-program algebra, list induction; tableaux fixed points) + exact symbol correspondence + conservation oracle on the real code", design="§4 C09"),
  "C12": dict(text="Theorems: for 0<k<N/2 the 2D injection array equals N^2/2 * (-k s gamma) at stored mode (0,k) and 0 elsewhere, the 3D one N^3/2 * (-/+ i gamma) at (0,+/-k,0) in channel 0 and 0 elsewhere "
                   "- the transforms of the documented -k(2pi/L)gamma cos and gamma sin (transform of a real harmonic proved from a primitive root); the 2D convection term vanishes identically on "
